@@ -323,6 +323,27 @@ PROPS = {
         assumptions=['device contract for _open/_close/_send/_receive', 'time.sleep returns'],
         trusted_base=[],
     ),
+    'C10': dict(
+        level='proof',
+        text='what contracts can decide about a property over schedules is a SUFFICIENT discipline, and that is what is proved: on '
+             'every path of receive (blocking / non-blocking), poll, iter_pending and send of BaseIOPort, EchoPort, MultiPort (and '
+             'IOPort), every test/pop/append of the message queue and every use of the device happens while the lock that owns '
+             'the queue is held (lock ownership tracked through `with lock:` by the symbolic executor); send passes exactly one '
+             'fresh equal copy to the device; receive pops the head; EchoPort appends at the tail. Exactly-once, intact, '
+             'per-sender-FIFO delivery under every interleaving then follows from the ASSUMED serialisability of the critical '
+             'sections of one re-entrant lock. IOPort violates the discipline (known finding K2).',
+        note='trusted: pyvc, z3/cvc5; ASSUMED meta-theorem: critical sections guarded by one lock are serialisable and '
+             'deque/list operations inside them are atomic w.r.t. that lock; no schedule is enumerated by the proof - a bounded '
+             'stand-in runs real threads with a tiny switch interval',
+        clauses=[
+            ['queue and device only touched under the owning lock, all public operations, 4 port classes', 'P (K2: IOPort)'],
+            ['send hands exactly one fresh equal copy to the device (C11.send), original unchanged', 'P'],
+            ['serialisability of critical sections => exactly-once / FIFO under all interleavings', 'assumed meta-theorem'],
+            ['real threads: 1-3 senders x 1-2 receivers, sampled schedules', 'B'],
+        ],
+        assumptions=['critical sections of one lock are serialisable (Python threading.RLock)', 'device double contract'],
+        trusted_base=[],
+    ),
     'C02': dict(
         level='proof',
         text='Message.from_bytes / decode_message are verified against the MIDI 1.0 well-formedness predicate for integer '
@@ -343,4 +364,4 @@ PROPS = {
 }
 
 NOT_APPLICABLE = {pid: _PENDING for pid in
-                  ['C10', 'C18', 'C19', 'C20']}
+                  ['C18', 'C19', 'C20']}
